@@ -265,3 +265,8 @@ Theorem C17_order_checker_exact : forall F (g : graph F), wf g ->
   forall act, order_okb g act = true <-> order_ok g act.
 Proof. intros F g W act. exact (order_okb_iff g W act). Qed.
 Print Assumptions C17_order_checker_exact.
+
+(* likewise the per-case test that the node simulate assigns is a Value node *)
+Theorem C17_target_checker_exact : forall F (g : graph F) d, tgt_valueb g d = true <-> tgt_value F g d.
+Proof. intros F g d. exact (tgt_valueb_iff g d). Qed.
+Print Assumptions C17_target_checker_exact.
